@@ -45,7 +45,9 @@ LEVEL_TEXT = ("Machine-checked Coq theorems over GoLite networks (any input, wor
 LEVEL_NOTE = ("Partial in DESIGN's sense: channel hand-off, WaitGroup, context tree (cancellation reaches derived contexts atomically) and goroutine "
               "exit are model primitives; goroutine exit on the real code is observed by the stack-polling oracle only (10 s bounds, never short "
               "sleeps). The tie is outcome-level per scenario (leak count / stuck / EOF vs. the executable model's outcome for the same scenario). "
-              "C04_finite_input_eof is a statement + executable check (model and real code) for the multi-worker constructs, not a theorem; "
+              "C04_finite_input_eof is proved in full for the single-pump constructs and for GenerateParallel (C04_finite_input_eof_generate, "
+              "C04_progress_exhaust_generate: deadlock freedom + delivered ~ input, any n >= 1, input, schedule); for Map / ProcessParallel / ParallelBuffer "
+              "/ Split / MergeIterators it is a statement + executable check (model and real code), not a theorem; "
               "termination (no infinite un-aborted run) is not proved. Blocking sources of the blocked-close/-cancel scenarios are represented in "
               "the model by a pump blocked in its ctx-guarded send.")
 TECHNIQUE = "Coq proof (static guard check + context invariant + enabledness lemma over a small-step semantics) + goroutine-leak oracle on real runs, outcomes compared with the executable model under vm_compute"
